@@ -19,12 +19,17 @@ fn profile(rng: &mut Rng) -> Profile {
     let mut p = Profile::default();
     p.blocks = (4, 18);
     p.txs = (0, 6);
-    p.commit = match rng.below(3) {
+    p.commit = match rng.below(5) {
         0 => CommitSched::Never,
         1 => CommitSched::Every(1),
-        _ => CommitSched::Random(1, 3),
+        2 => CommitSched::Random(1, 3),
+        // batched commits: rows stay in memory for ten blocks and more before they are written
+        3 => CommitSched::Random(1, 12),
+        _ => CommitSched::Every(rng.range(9, 13)),
     };
     p.p_reorg = (1, 6);
+    p.p_commit_before_reorg = (1, 2);
+    p.reorg_back = vec![(1, 4), (2, 3), (3, 2), (5, 1), (9, 3), (10, 8), (11, 2), (0, 1), (-1, 1)];
     p.p_mine = (1, 12);
     p.p_clear = (1, 30);
     p.w_spin = 1;
